@@ -9,6 +9,7 @@
  */
 #include <cgreen/cgreen.h>
 #include <cgreen/mocks.h>
+#include <cgreen/internal/c_assertions.h>
 #include <stdio.h>
 #include <stdlib.h>
 #include <string.h>
@@ -43,6 +44,7 @@ static size_t unhex(const char *h, unsigned char *out) {
 }
 
 static intptr_t mocked_d(double d) { return mock(box_double(d)); }
+static intptr_t mocked_i(intptr_t p) { return mock(p); }
 
 int main(void) {
     static char line[1 << 17], name[64], h1[1 << 16], h2[1 << 16];
@@ -135,6 +137,56 @@ int main(void) {
                 mocked_d(A);
                 clear_mocks();
             }
+        } else if (!strncmp(line, "msgint ", 7) || !strncmp(line, "msgstr ", 7) || !strncmp(line, "msgleg ", 7) || !strncmp(line, "msgmock ", 8)) {
+            /* C10: the failure message exactly as the text reporter's vprintf would expand it */
+            static char kind[64], hx1[1 << 15], hx2[1 << 15], hx3[1 << 15], hx4[1 << 15];
+            static unsigned char t1[1 << 14], t2[1 << 14], t3[1 << 14], t4[1 << 14];
+            long long a = 0, e = 0;
+            last_message[0] = 0;
+            if (!strncmp(line, "msgint ", 7)) {
+                sscanf(line, "msgint %63s %32767s %32767s %lld %lld", kind, hx1, hx2, &a, &e);
+                unhex(hx1, t1); unhex(hx2, t2);
+                Constraint *c = !strcmp(kind, "equal") ? create_equal_to_value_constraint((intptr_t)e, (const char *)t2)
+                              : !strcmp(kind, "notequal") ? create_not_equal_to_value_constraint((intptr_t)e, (const char *)t2)
+                              : !strcmp(kind, "less") ? create_less_than_value_constraint((intptr_t)e, (const char *)t2)
+                              : !strcmp(kind, "greater") ? create_greater_than_value_constraint((intptr_t)e, (const char *)t2)
+                              : !strcmp(kind, "hex") ? create_equal_to_hexvalue_constraint((intptr_t)e, (const char *)t2)
+                              : !strcmp(kind, "null") ? create_is_null_constraint()
+                              : !strcmp(kind, "nonnull") ? create_not_null_constraint()
+                              : !strcmp(kind, "true") ? create_is_true_constraint() : create_is_false_constraint();
+                assert_core_("f", 1, (const char *)t1, (intptr_t)a, c);
+            } else if (!strncmp(line, "msgstr ", 7)) {
+                sscanf(line, "msgstr %63s %32767s %32767s %32767s %32767s", kind, hx1, hx2, hx3, hx4);
+                unhex(hx1, t1); unhex(hx2, t2); unhex(hx3, t3); unhex(hx4, t4);
+                const char *ev = (const char *)t4, *en = (const char *)t2;
+                Constraint *c = !strcmp(kind, "equal") ? create_equal_to_string_constraint(ev, en)
+                              : !strcmp(kind, "notequal") ? create_not_equal_to_string_constraint(ev, en)
+                              : !strcmp(kind, "contains") ? create_contains_string_constraint(ev, en)
+                              : !strcmp(kind, "notcontains") ? create_does_not_contain_string_constraint(ev, en)
+                              : !strcmp(kind, "begins") ? create_begins_with_string_constraint(ev, en)
+                              : !strcmp(kind, "notbegins") ? create_does_not_begin_with_string_constraint(ev, en)
+                              : !strcmp(kind, "ends") ? create_ends_with_string_constraint(ev, en) : create_does_not_end_with_string_constraint(ev, en);
+                assert_core_("f", 1, (const char *)t1, (intptr_t)(const char *)t3, c);
+            } else if (!strncmp(line, "msgleg ", 7)) {
+                sscanf(line, "msgleg %63s %32767s %32767s %32767s", kind, hx1, hx3, hx4);
+                unhex(hx1, t1); unhex(hx3, t3); unhex(hx4, t4);
+                if (!strcmp(kind, "equal")) assert_equal_("f", 1, (const char *)t1, (intptr_t)atoll((char *)t3), (intptr_t)atoll((char *)t4));
+                else if (!strcmp(kind, "notequal")) assert_not_equal_("f", 1, (const char *)t1, (intptr_t)atoll((char *)t3), (intptr_t)atoll((char *)t4));
+                else if (!strcmp(kind, "strequal")) assert_string_equal_("f", 1, (const char *)t1, (const char *)t3, (const char *)t4);
+                else assert_string_not_equal_("f", 1, (const char *)t1, (const char *)t3, (const char *)t4);
+            } else {
+                /* a failing when() clause in a mock expectation: value in the message */
+                sscanf(line, "msgmock %63s %lld %lld", kind, &a, &e);
+                if (!strcmp(kind, "equal")) expect(mocked_i, when(p, is_equal_to(e)));
+                else if (!strcmp(kind, "less")) expect(mocked_i, when(p, is_less_than(e)));
+                else expect(mocked_i, when(p, is_greater_than(e)));
+                mocked_i((intptr_t)a);
+                clear_mocks();
+            }
+            printf("%d ", last_result);
+            for (char *m = last_message; *m; m++) printf("%02x", (unsigned char)*m);
+            printf("\n");
+            continue;
         } else continue;
         if (nresults == 1) printf("%d\n", last_result);
         else printf("n%d\n", nresults);
